@@ -70,6 +70,17 @@ def closure_args(body, bb, prog):
     return out
 
 
+def _preds_chain(body, bb, hops=6):
+    out, cur = [], bb
+    for _ in range(hops):
+        ps = body.pred(cur)
+        if len(ps) != 1:
+            break
+        cur = ps[0]
+        out.append(cur)
+    return out
+
+
 def run(prog, tier, extra=None):
     res = Result("C14", "other")
     R1 = res.rule("C14.release", "removing pooled transactions releases their input reservations", floor=3)
@@ -79,6 +90,8 @@ def run(prog, tier, extra=None):
     R6 = res.rule("C14.revalidate", "the pool is re-validated against the ledger on every block addition", floor=2)
     R3 = res.rule("C14.bundle-atomic", "bundle_block: no failure exit after the pool was drained without re-insertion", floor=1)
     R8 = res.rule("C14.pool-types", "the pool's admission point cannot insert a transaction of a type that only a block may contain (Fee, ATR, SPV; Issuance once the chain has a block)", floor=4)
+    R9 = res.rule("C14.bundle-no-assert", "Mempool::bundle_block contains no assertion: a condition under which it cannot bundle is answered with None, not by taking the node down", floor=1)
+    R10 = res.rule("C14.sweep-window", "the pool sweep after a block addition also drops transactions whose inputs have left the retention window", floor=1)
     R7 = res.rule("C14.refused-block-restored", "a refused block's transactions are offered back to the pool's insertion point: add_block_failure cannot finish, once it holds the block, without add_block_transactions_back", floor=1)
     fa = FieldAnalysis(prog)
     tx_sites, map_sites, map_sites_through = {}, {}, {}
@@ -459,6 +472,45 @@ def run(prog, tier, extra=None):
                             bb_body.loc(x)))
         if not sources:
             res.sample({"rule": R3, "drain": bb_body.loc(s[1]), "verdict": "no failure exit after the drain without re-insertion"})
+
+    # R9: bundle_block runs on every timer tick, with or without pooled transactions. "Bundling either yields a valid block ... or leaves
+    # the pool unchanged" leaves no room for an assertion: e.g. `assert!(now > tip.timestamp)` takes the node down (and keeps it down
+    # across restarts) as soon as a peer's block stamped ahead of the local clock becomes the tip.
+    res.instance(R9)
+    asserts9 = [bb for bb, t in bb_body.calls() if any(k in ((call_name(t) or "") + " " + (t.get("res") or "")) for k in ("panicking::assert_failed", "core::panicking::panic ", "panicking::panic_fmt"))
+                or (call_name(t) or "") in ("core::panicking::panic", "std::panicking::panic")]
+    # panic_fmt is also what `unwrap`-free `expect`s lower to; keep to assertion shapes: a failure block whose only predecessor is a bool switch
+    asserts9 = [bb for bb in asserts9 if any(bb_body.term(p_)["k"] == "switch" and bb_body.tyix(bb_body.term(p_)["dty"])["s"] == "bool" for p_ in _preds_chain(bb_body, bb))]
+    if asserts9:
+        res.add(Finding(R9, "C14.bundle-no-assert", "Mempool::bundle_block asserts on a run-time condition (%s): when it does not hold - e.g. the tip carries a timestamp ahead of the "
+                        "local clock, which nothing refuses - every timer tick aborts the node instead of skipping the bundle" % bb_body.loc(asserts9[0]), bb_body.loc(asserts9[0])))
+    else:
+        res.sample({"rule": R9, "verdict": "no assertion in bundle_block"})
+    # R10: the sweep must apply every ledger-relative test block validation applies to a transaction: the UTXO lookup and the
+    # retention-window test (an input that leaves the window with the next block makes the transaction unbundlable for good)
+    res.instance(R10)
+    wtest_roots = set()
+    for b_ in prog.all_bodies():
+        if b_.is_promoted or "::tests::" in b_.path or not b_.path.startswith(CORE + "consensus::") or "consensus::wallet::" in b_.path:
+            continue
+        chw_ = None
+        for blk in b_.blocks:
+            for st in blk["s"]:
+                if st[0] == "=" and st[2][0] == "bin" and st[2][1] in ("Lt", "Le", "Gt", "Ge"):
+                    chw_ = chw_ or Chaser(b_)
+                    if has_field(chw_.rvalue(st[2], 0), "slip::Slip", "block_id"):
+                        from ._helpers import root as _r10
+                        wtest_roots.add(_r10(b_.path))
+    sweep_bodies = [rbt] + [b_ for p_, b_ in prog.bodies.items() if p_.startswith(rbt.path + "::{closure") and not b_.is_promoted]
+    from ._helpers import root as _r10
+    has_window = any(_r10(t_.get("res") or t_.get("callee") or "") in wtest_roots for b_ in sweep_bodies for _, t_ in b_.calls())
+    if not wtest_roots:
+        res.not_decided.append("C14.sweep-window: no retention-window test exists in the consensus code (see C01.input-window)")
+    elif not has_window:
+        res.add(Finding(R10, "C14.sweep-window", "remove_block_transactions re-checks pooled transactions against the UTXO set only: a pooled transaction whose input leaves the retention "
+                        "window stays pooled although no block can carry it any more (it then collides with the rebroadcast of the same output or invalidates the node's own block)", rbt.loc(0)))
+    else:
+        res.sample({"rule": R10, "verdict": "the sweep applies the retention-window test as well"})
 
     # R7: "bundling yields a valid block or leaves the pool unchanged": the drained transactions travel in the block; when the
     # node refuses that block, add_block_failure must hand them back (add_block_transactions_back -> insertion point, which drops
